@@ -372,6 +372,31 @@ def check_noop(ctx):
     ctx.expect(paths, ret=1)
 
 
+def check_dylib_recreate(ctx):
+    ctx.eng.max_strlen = 64
+    keep = ctx.sym("keep_other", 32)
+    x = ctx.sym("x", 32)
+    ctx.assume(z3.ULE(keep, 1))
+    paths = ctx.run("k_dylib_recreate", [keep, x])
+    for q in paths:
+        if q.status != "ret":
+            ctx.fail(q, "re-creating a dylib sandbox object with another library ended %s (%s)" % (q.status, q.info))
+            continue
+        lg = q.user.get("log") or []
+        r, m = ctx.eng.check_sat(q.pc)
+        cv = lambda t: t if isinstance(t, int) else mval(m, t)      # the library number depends on keep_other only, which the path fixes
+        want, ok, why = None, True, ""
+        for e in lg:
+            if e[0] == 29:
+                want = (cv(e[1]), cv(e[2]))
+            elif e[0] == 30:
+                if want is None or (cv(e[1]), cv(e[2])) != want:
+                    ok, why = False, "library %s function %s ran, expected %s" % (cv(e[1]), cv(e[2]), want)
+                want = None
+        ctx.require(q, z3.BoolVal(ok and want is None), "after destroy + create with another library every name resolves in the library of the current incarnation (%s)" % why)
+    ctx.expect(paths, ret=2)
+
+
 def check_dylib_foreign(ctx):
     ctx.eng.max_strlen = 64
     x = ctx.sym("x", 32)
@@ -468,6 +493,7 @@ def jobs(tier, seed):
     for j in C12.jobs("quick", seed):
         if j.name in ("C12_noop_nested", "C12_noop_etls_nested", "C12_dylib_nested", "C12_dylib_etls_nested"):
             out.append(Job(j.name.replace("C12_", "C11_cbarg_"), j.source, j.checks, flags=j.flags, unwind=j.unwind, compare_logs=j.compare_logs, native=j.want_native))
+    out.append(Job("C11_dylib_recreate", '#include "C11_dylib2.inc"\n', [dict(name="dylib sandbox object re-created with another library", fn=check_dylib_recreate, unwind=300)], native=False))
     out.append(Job("C11_dylib_foreign", '#include "C11_dylib2.inc"\n', [dict(name="dylib name not exported by the instance's library", fn=check_dylib_foreign, unwind=300)], native=False))
     out.append(Job("C11_unreg_arg", '#include "C11_unreg.inc"\n', [dict(name="BM inert callback owner passed as an argument", fn=check_unreg_arg, unwind=300)], native=False))
     out.append(Job("C11_dylib_two", '#include "C11_dylib2.inc"\n', [dict(name="dylib two instances, two libraries, same names", fn=check_dylib_two, unwind=300)], native=False))
